@@ -53,7 +53,9 @@ EXHAUSTIVE_NOTE = ("detection: every silent-channel position, every noisy-channe
                    "hand-written list of end / block-edge placements; this is one sweep per axis, not the product, and "
                    "interpolation inputs are sampled. The call form (8 keyword forms), the memory layout (C / transposed / "
                    "strided) and read-only input rotate along the sweep, so each form meets positions spread over the probe, "
-                   "not every position")
+                   "not every position. Two fixed file cases run in every tier: the default call form on a 1.38 s recording "
+                   "(shorter than n_batches x batch_duration) given as an open Reader, and three separate batches with "
+                   "different fault sets (thorough: two more short recordings)")
 ASSUMPTIONS = [
     "'nearby' = raw decay weight exp(-(d/kriging_distance)^p) >= 0.005 (the anchor's cut-off); a channel whose raw weight is "
     "within 1e-9 relative of 0.005 may or may not contribute",
@@ -1019,7 +1021,25 @@ def _sweep_bg(seed):
 def enum_shards(tier):
     out = [{"bg": s, "shard": i, "ns": SWEEP_NS[tier]} for s in SWEEP_BG[tier] for i in range(SWEEP_SHARDS)]
     out.extend({"corners": True, "part": i, "ns": SWEEP_NS[tier]} for i in range(CORNER_SHARDS))
+    out.extend({"short_file": i} for i in ((0, 3) if tier == "quick" else range(len(_SHORT_FILES))))
     return out
+
+
+# recordings shorter than n_batches x batch_duration, run in every tier (drawn file cases are few and Hypothesis does not
+# draw them independently): the default call form on 1.38 s handed over as an open Reader; 3 x 0.15 s on 0.18 s; 5 x 0.3 s on 0.6 s
+_SHORT_FILES = [
+    {"gen": "3B2", "cbin": False, "nb": 10, "bd": 0.3, "gap": -0.18, "fs": FS_AP, "input": "reader", "batch_view": True,
+     "fault": {"dead": 101, "dead_mode": "zero", "noisy": 263, "noisy_uv": 80.0, "noisy_mode": "add", "blk": 17, "blk_mode": "incoh"}},
+    {"gen": "NP2.1", "cbin": True, "nb": 3, "bd": 0.15, "gap": -0.135, "fs": 29999.757983, "input": "str", "batch_view": False,
+     "fault": {"dead": 5, "dead_mode": "tiny", "noisy": 300, "noisy_uv": 45.0, "noisy_mode": "replace", "blk": 0}},
+    {"gen": "NP2.1", "cbin": False, "nb": 5, "bd": 0.3, "gap": -0.225, "fs": FS_AP, "input": "reader_twice", "batch_view": False,
+     "fault": {"dead": 200, "dead_mode": "zero", "blk": 40, "blk_mode": "quiet"}},
+    # and one recording with three separate batches whose fault sets differ, so that the most frequent label differs from the
+    # label of the last batch, of the first batch and from the largest label (channel 100: 1,1,0; 250: 2,0,0; top block: 3,3,0)
+    {"gen": "3B2", "cbin": False, "nb": 3, "bd": 0.15, "gap": 0.06, "fs": FS_AP, "input": "path", "batch_view": False,
+     "faults": [{"dead": 100, "dead_mode": "zero", "noisy": 250, "noisy_uv": 80.0, "noisy_mode": "add", "blk": 12, "blk_mode": "incoh"},
+                {"dead": 100, "dead_mode": "zero", "blk": 12, "blk_mode": "incoh"}, {"blk": 0}]},
+]
 
 
 def _corner_faults(nc=384):
@@ -1039,6 +1059,12 @@ def _corner_faults(nc=384):
 
 def enum_cases(desc):
     nc = 384
+    if "short_file" in desc:
+        sf = dict(_SHORT_FILES[desc["short_file"]])
+        faults = sf.pop("faults", None) or [sf["fault"]] * sf["nb"]
+        sf.pop("fault", None)
+        yield dict(sf, kind="file", bg=_sweep_bg(12), faults=[dict(f) for f in faults], sync_seed=desc["short_file"])
+        return
     if desc.get("corners"):
         for k, f in enumerate(_corner_faults(nc)[desc.get("part", 0)::CORNER_SHARDS if "part" in desc else 1]):
             f.setdefault("blk", 0)
